@@ -269,6 +269,7 @@ def returned_cases(ck, worlds, metrics_sets, knobs=None, detail_both=True):
             if rd.get("empty") or (rj is not None and rj.get("empty")):
                 continue
             jrows = {}
+            by_index = rj is not None and len(rj["rows"]) == len(rd["rows"])
             if rj is not None:
                 for row in rj["rows"]:
                     jrows.setdefault(json.dumps(row.get("nodes")), row)
@@ -278,7 +279,9 @@ def returned_cases(ck, worlds, metrics_sets, knobs=None, detail_both=True):
                 if nodes is None:
                     info[cid] = {"world": w, "mset": mset, "row": row, "nodes": None, "export_error": row.get("nodes_error")}
                     continue
-                jrow = jrows.get(json.dumps(nodes))
+                # "every returned mapping": the i-th row of both runs is the same returned mapping (the runs are
+                # deterministic, C20); fall back to matching by LoopTree when the row counts differ
+                jrow = rj["rows"][i] if by_index else jrows.get(json.dumps(nodes))
                 me, ml = fr(row["totals"]["energy"]), fr(row["totals"]["latency"])
                 # the undetailed run only reports the totals its metrics need; an absent total is not compared
                 je = fr(jrow["totals"]["energy"]) if jrow and "energy" in jrow["totals"] else me
